@@ -16,11 +16,11 @@ SPEC = "NFS41.tla"
 TRACE = "NFS41Trace.tla"
 TRACE_CFG = "Trace_NFS41.cfg"
 
-# design-check configuration per property
+# design-check configurations per property (quick tier, added in the thorough tier)
 MC = {
-    "C18": ["MC_NFS41_C18.cfg"],
-    "C19": ["MC_NFS41_C19.cfg"],
-    "C20": ["MC_NFS41_C20.cfg"],
+    "C18": (["MC_NFS41_C18.cfg"], ["MC_NFS41_C18_lease.cfg"]),
+    "C19": (["MC_NFS41_C19.cfg"], []),
+    "C20": (["MC_NFS41_C20.cfg"], ["MC_NFS41_C20_full.cfg"]),
 }
 
 RULE = ("TLC explores NFS41.tla exhaustively for small constants (2 clients, open-/lock-owners, files, "
@@ -65,8 +65,9 @@ def run_parts(ctx, design=True):
     """Design check + conformance of the real NFSv4.1 server. Appends to
     ctx.violations / ctx.cov; the caller calls vlib.finish."""
     if design:
-        for cfg in MC.get(ctx.prop, []):
-            vlib.design_check(ctx, SPEC, cfg, [], timeout=1800, workers=2, heap="3g")
+        q, t = MC.get(ctx.prop, ([], []))
+        for cfg in q + ([] if ctx.quick() else t):
+            vlib.design_check(ctx, SPEC, cfg, [], timeout=3000, workers=2, heap="3g")
     binary = vlib.go_build_test(ctx, "nfs41")
     quick = ctx.quick()
     # VERIF_NFS41_ONLY=scen,inflight,random restricts the drivers (for iterating).
@@ -81,7 +82,7 @@ def run_parts(ctx, design=True):
         _validate(ctx, out, "inflight")
     # 3. seeded random multi-client histories
     if not only or "random" in only:
-        n = 40 if quick else 300
+        n = 40 if quick else 150
         steps = 70 if quick else 90
         out = _driver(ctx, binary, "TestRandom", "random", env={"VERIF_N": n, "VERIF_STEPS": steps})
         _validate(ctx, out, "random", timeout=3000)
